@@ -41,13 +41,16 @@ def seg_text(name, n=1):
     return "%s|%d" % (name, n)
 
 
-def first_segment(kids):
-    """a group whose members are all optional still needs one segment to exist at all"""
+def minimal_instance(kids):
+    """smallest non-empty conforming content of a group: its required content, or - when every member is optional -
+    its first member (with that member's own minimal content)"""
+    r = gen_required(kids)
+    if r:
+        return r
     for k in kids:
         if k["kind"] == "SEG":
             return [k["name"]]
-    for k in kids:
-        r = first_segment(k["kids"])
+        r = minimal_instance(k["kids"])
         if r:
             return r
     return []
@@ -60,7 +63,7 @@ def gen_required(kids):
             if k["kind"] == "SEG":
                 out.append(k["name"])
             else:
-                out.extend(gen_required(k["kids"]) or first_segment(k["kids"]))
+                out.extend(minimal_instance(k["kids"]))
     return out
 
 
@@ -83,7 +86,7 @@ def gen_with(kids, chosen, rep, full):
             if k["kind"] == "SEG":
                 out.append(k["name"])
             else:
-                out.extend(gen_with(k["kids"], chosen, rep, full) or first_segment(k["kids"]))
+                out.extend(gen_with(k["kids"], chosen, rep, full) or minimal_instance(k["kids"]))
     return out
 
 
